@@ -673,6 +673,400 @@ def md030(v, cfg):
     return must, must_not
 
 
+# ---------------------------------------------------------------------------------------------- second batch
+# A MUST set may also contain frozensets: "a report on at least one of these lines" (used where the
+# documentation states the trigger but not which line carries the report).
+def _single_line_paras(v, top_only=False):
+    """(line, depth, children) of paragraphs that occupy exactly one source line"""
+    out = []
+    toks = v.tokens
+    depth = 0
+    for i, t in enumerate(toks):
+        if t.type in ("blockquote_open", "bullet_list_open", "ordered_list_open"):
+            depth += 1
+        elif t.type in ("blockquote_close", "bullet_list_close", "ordered_list_close"):
+            depth -= 1
+        elif t.type == "paragraph_open" and t.map and t.map[1] - t.map[0] == 1:
+            if top_only and depth:
+                continue
+            inline = toks[i + 1]
+            out.append((t.map[0] + 1, depth, [c for c in (inline.children or []) if not (c.type == "text" and c.content == "")]))
+    return out
+
+
+_PLAIN = re.compile(r"[A-Za-z0-9 ]+")
+
+
+def md012(v, cfg):
+    """more than `maximum` (default 1) consecutive blank lines between two top-level blocks, outside code / HTML blocks"""
+    mx = cfg.get("maximum", 1)
+    must, must_not = set(), set()
+    last_real = v.n - 1 if v.lines[-1] == "" else v.n
+    special = set(v.code_lines)
+    for a, b, d in v.html_blocks:
+        special.update(range(a, b + 1))
+    container_lines = set()
+    for typ, a, b in v.top_blocks:
+        if typ in ("blockquote_open", "bullet_list_open", "ordered_list_open"):
+            container_lines.update(range(a, b + 2))
+    ln = 1
+    near = set()
+    while ln <= last_real:
+        if v.line(ln) == "":
+            s = ln
+            while ln <= last_real and v.line(ln) == "":
+                ln += 1
+            e = ln - 1  # run s..e of empty lines
+            run = set(range(s, e + 1))
+            near |= run | {s - 1, e + 1}
+            if s == 1 or e >= last_real:
+                continue  # leading / trailing blank lines: not documented
+            if run & special or (run | {s - 1, e + 1}) & container_lines or (s - 1) in special or (e + 1) in special:
+                continue
+            if e - s + 1 > mx:
+                must.add(frozenset(run | {e + 1}))
+            else:
+                must_not |= run
+        else:
+            ln += 1
+    must_not |= {l for l in all_lines(v) if l not in near and v.line(l).strip() != ""}
+    return must, must_not
+
+
+def md020(v, cfg):
+    """paragraph line that looks like a closed ATX heading with no space inside the hashes on either side"""
+    must, must_not = set(), set()
+    for ln, d, ch in _single_line_paras(v, top_only=True):
+        line = v.line(ln)
+        m = re.match(r"^ {0,3}(#{1,6})([A-Za-z0-9][A-Za-z0-9 ]*?)( *)(#+)$", line)
+        if m:
+            must.add(ln)  # no space after the opening hashes (whatever the closing side looks like)
+    for lv, a, b, mk, tx, d, _ in v.headings:
+        if d != 0 or not mk.startswith("#") or b != a:
+            continue
+        line = v.line(a)
+        if re.match(r"^ {0,3}#{1,6} +[A-Za-z0-9 ]*[A-Za-z0-9]#+$", line):
+            must.add(a)  # "# Heading 1#": no space before the closing hashes
+        elif re.match(r"^ {0,3}#{1,6} +[A-Za-z0-9]([A-Za-z0-9 ]*[A-Za-z0-9])? +#+ *$", line):
+            must_not.add(a)
+    must_not |= {ln for ln in all_lines(v) if "#" not in v.line(ln)}
+    return must, must_not
+
+
+def md021(v, cfg):
+    """closed ATX heading with more than one space after the opening or before the closing hashes"""
+    must, must_not = set(), set()
+    for lv, a, b, mk, tx, d, _ in v.headings:
+        if d != 0 or not mk.startswith("#") or b != a:
+            continue
+        line = v.line(a)
+        if "\t" in line:
+            continue
+        m = re.match(r"^ {0,3}(#{1,6})( +)([A-Za-z0-9](?:[A-Za-z0-9 ]*[A-Za-z0-9])?)( +)(#+) *$", line)
+        if not m:
+            continue
+        if len(m.group(2)) > 1 or len(m.group(4)) > 1:
+            must.add(a)
+        else:
+            must_not.add(a)
+    must_not |= all_lines(v) - v.heading_lines
+    return must, must_not
+
+
+def md027(v, cfg):
+    """more than one space after the block quote character at the start of a paragraph line (top-level quotes)"""
+    must, must_not = set(), set()
+    if ">" not in v.src:
+        return set(), all_lines(v)
+    toks = v.tokens
+    stack = []
+    for i, t in enumerate(toks):
+        if t.type.endswith("_open") and t.type in ("blockquote_open", "bullet_list_open", "ordered_list_open", "list_item_open"):
+            stack.append(t.type)
+        elif t.type in ("blockquote_close", "bullet_list_close", "ordered_list_close", "list_item_close"):
+            stack.pop()
+        elif t.type == "paragraph_open" and stack == ["blockquote_open"] and t.map:
+            first = t.map[0] + 1
+            line = v.line(first)
+            if re.match(r"^> {2,3}[A-Za-z]", line):
+                must.add(first)
+            elif re.match(r"^> ?[A-Za-z]", line) and "[" not in line:
+                must_not.add(first)
+    must_not |= {ln for ln in all_lines(v) if ">" not in v.line(ln) and not any(a <= ln <= b for t, a, b in v.top_blocks if t == "blockquote_open")}
+    return must, must_not
+
+
+def md028(v, cfg):
+    """one or more blank lines between two block quotes (top level)"""
+    must, must_not = set(), set()
+    quote_lines = [ln for ln in all_lines(v) if v.line(ln).lstrip(" ").startswith(">")]
+    if len(quote_lines) < 2 or not any(v.line(ln).strip() == "" for ln in range(min(quote_lines), max(quote_lines))):
+        return set(), all_lines(v)
+    tb = v.top_blocks
+    involved = set()
+    for (t1, a1, b1), (t2, a2, b2) in zip(tb, tb[1:]):
+        if t1 == "blockquote_open" and t2 == "blockquote_open":
+            between = list(range(b1 + 1, a2))
+            if between and all(v.line(ln).strip() == "" for ln in between) and v.line(b1).lstrip(" ").startswith(">"):
+                must.add(frozenset(between + [a2]))
+                involved.update(between + [a2])
+    if all(t in ("blockquote_open", "paragraph_open", "heading_open", "hr") for t, a, b in tb):
+        inner_blank = False
+        for t, a, b in tb:
+            if t == "blockquote_open" and any(v.line(ln).strip() == "" for ln in range(a, b + 1)):
+                inner_blank = True  # a blank line inside one quote token (lazy continuation cases): undecided
+        if not inner_blank:
+            must_not |= {ln for ln in all_lines(v) if ln not in involved and v.line(ln).strip() != ""}
+    return must, must_not
+
+
+_OPEN_TAG = re.compile(r"<([A-Za-z][A-Za-z0-9-]*)(?=[\s/>])")
+
+
+def md033(v, cfg):
+    """raw HTML (block or inline) whose tag name is not in allowed_elements"""
+    allowed = {x.strip().lower() for x in cfg.get("allowed_elements", "!--,![CDATA[,!DOCTYPE").split(",")}
+    must, must_not = set(), set()
+    first_block_line = v.top_blocks[0][1] if v.top_blocks else None
+    for a, b, d in v.html_blocks:
+        line = v.line(a)
+        m = re.match(r"^[ >]*<([A-Za-z][A-Za-z0-9-]*)(?=[\s/>])", line)
+        if not m:
+            continue
+        name = m.group(1).lower()
+        if name == "h1" and a == first_block_line:
+            continue  # allow_first_image_element territory
+        if name not in allowed and m.group(1) not in cfg.get("allowed_elements", ""):
+            must.add(a)
+        elif name in allowed and m.group(1) in cfg.get("allowed_elements", "").split(",") and line.count("<") == 1 and d == 0:
+            must_not.add(a)
+    for ln, d, ch in _single_line_paras(v):
+        tags = [c.content for c in ch if c.type == "html_inline"]
+        if not tags:
+            continue
+        names = [_OPEN_TAG.match(t) for t in tags]
+        opens = [m.group(1) for m in names if m]
+        if any(o.lower() not in allowed for o in opens):
+            must.add(ln)
+        elif opens and len(opens) == len(tags) and all(o in cfg.get("allowed_elements", "").split(",") for o in opens):
+            must_not.add(ln)
+    must_not |= {ln for ln in all_lines(v) if "<" not in v.line(ln)}
+    return must, must_not
+
+
+_URL = re.compile(r"(?:^|(?<=\s))(?:https?|ftps?)://\S")
+
+
+def md034(v, cfg):
+    """bare URL (http/https/ftp/ftps + '://' + non-whitespace, preceded by whitespace or start) in paragraph or heading text"""
+    must, must_not = set(), set()
+    for ln, d, ch in _single_line_paras(v, top_only=True):
+        if ch and all(c.type == "text" for c in ch):
+            line = v.line(ln)
+            if re.match(r"^ {0,3}[A-Za-z]", line) and _URL.search(line):
+                must.add(ln)
+    must_not |= {ln for ln in all_lines(v) if not re.search(r"(?i)(https?|ftps?):", v.line(ln))}
+    return must, must_not
+
+
+def md036(v, cfg):
+    """single-line paragraph that consists entirely of one emphasis element whose text does not end in punctuation"""
+    punct = cfg.get("punctuation", ".,;:!?。，；：？")
+    must, must_not = set(), set()
+    judged = set()
+    for ln, d, ch in _single_line_paras(v):
+        types = [c.type for c in ch]
+        if types in (["em_open", "text", "em_close"], ["strong_open", "text", "strong_close"]):
+            txt = ch[1].content
+            if not txt.strip() or txt != txt.strip():
+                continue
+            judged.add(ln)
+            if txt[-1] in punct:
+                must_not.add(ln)
+            elif _PLAIN.fullmatch(txt) and d == 0 and re.match(r"^[*_]", v.line(ln)):
+                must.add(ln)
+        elif types and types[0] not in ("em_open", "strong_open") and all(t in ("text", "em_open", "em_close", "strong_open", "strong_close", "code_inline", "softbreak") for t in types):
+            must_not.add(ln)
+    must_not |= {ln for ln in all_lines(v) if "*" not in v.line(ln) and "_" not in v.line(ln)}
+    return must, must_not
+
+
+def md037(v, cfg):
+    """a matched pair of emphasis marker runs in one paragraph with whitespace on the inner side of either run"""
+    must, must_not = set(), set()
+    for ln, d, ch in _single_line_paras(v, top_only=True):
+        line = v.line(ln)
+        if not ch or not all(c.type == "text" for c in ch):
+            continue
+        m = re.fullmatch(r" {0,3}((?:[A-Za-z0-9]+ )*)(\*{1,2}|_{1,2})( ?)([A-Za-z0-9]+(?: [A-Za-z0-9]+)*)( ?)\2((?: [A-Za-z0-9]+)*)", line)
+        if m and (m.group(3) or m.group(5)):
+            must.add(ln)
+    must_not |= {ln for ln in all_lines(v) if "*" not in v.line(ln) and "_" not in v.line(ln)}
+    return must, must_not
+
+
+def md038(v, cfg):
+    """code span whose text starts or ends with an unbalanced space, or with more than one space"""
+    must, must_not = set(), set()
+    for ln, d, ch in _single_line_paras(v, top_only=True):
+        line = v.line(ln)
+        if sum(1 for c in ch if c.type == "code_inline") != 1 or any(c.type not in ("text", "code_inline") for c in ch):
+            continue
+        m = re.fullmatch(r"[^`\\]*(?<!`)`([^`]+)`(?!`)[^`\\]*", line)
+        if not m:
+            continue
+        raw = m.group(1)
+        if not raw.strip(" ") or "\t" in raw:
+            continue
+        lead = len(raw) - len(raw.lstrip(" "))
+        trail = len(raw) - len(raw.rstrip(" "))
+        if lead == 0 and trail == 0 or lead == 1 and trail == 1:
+            must_not.add(ln)
+        elif (lead == 0) != (trail == 0) or lead > 1 or trail > 1:
+            must.add(ln)
+    must_not |= {ln for ln in all_lines(v) if "`" not in v.line(ln)}
+    return must, must_not
+
+
+def md039(v, cfg):
+    """inline link / image whose label starts or ends with whitespace"""
+    must, must_not = set(), set()
+    for ln, d, ch in _single_line_paras(v, top_only=True):
+        line = v.line(ln)
+        labels = re.findall(r"!?\[([^\[\]\\`<*_]*)\]\(([^()\s\\<]*)\)", line)
+        n_links = sum(1 for c in ch if c.type in ("link_open", "image"))
+        if not labels or n_links != len(labels) or line.count("[") != len(labels):
+            continue
+        if any(l.strip() and l != l.strip() for l, _ in labels):
+            must.add(ln)
+        elif all(l and l == l.strip() for l, _ in labels):
+            must_not.add(ln)
+    must_not |= {ln for ln in all_lines(v) if "[" not in v.line(ln)}
+    return must, must_not
+
+
+def _heading_style(v, h):
+    lv, a, b, mk, tx, d, _ = h
+    if not mk.startswith("#"):
+        return "setext"
+    line = v.line(b).rstrip()
+    if line.endswith("#") and not tx.rstrip().endswith("#") and tx.strip():
+        return "atx_closed"
+    if tx.strip() and not tx.rstrip().endswith("#"):
+        return "atx"
+    return None
+
+
+def md003(v, cfg):
+    """heading style differs from the configured one / from the first heading's (consistent)"""
+    style = cfg.get("style", "consistent")
+    must, must_not = set(), set()
+    hs = [(h, _heading_style(v, h)) for h in v.headings]
+    want = style
+    for idx, (h, st) in enumerate(hs):
+        lv, a, b = h[0], h[1], h[2]
+        rng = frozenset(range(a, b + 1))
+        if st is None:
+            if style == "consistent" and idx == 0:
+                break
+            continue
+        if style == "consistent":
+            if idx == 0:
+                want = st
+                must_not |= rng
+                continue
+            if want == "setext" and st != "setext" and lv >= 3:
+                continue  # setext cannot express levels 3+: see allow-setext-update; not judged
+        if want in ("atx", "atx_closed", "setext"):
+            if want == "setext" and st != "setext" and lv >= 3:
+                continue
+            if st == want:
+                must_not |= rng
+            else:
+                must.add(rng if len(rng) > 1 else a)
+        elif want in ("setext_with_atx", "setext_with_atx_closed"):
+            exp = "setext" if lv <= 2 else want[len("setext_with_"):]
+            if st == exp:
+                must_not |= rng
+            else:
+                must.add(rng if len(rng) > 1 else a)
+    must_not |= all_lines(v) - v.heading_lines
+    return must, must_not
+
+
+def md014(v, cfg):
+    """every line of a code block begins with '$' (after leading spaces)"""
+    must, must_not = set(), set()
+    blocks = [(a + 1, b - 1 if b in v.fence_marker_lines and b != a else b, d) for a, b, mk, info, d in v.fences] + [(a, b, d) for a, b, d in v.code_blocks]
+    for a, b, d in blocks:
+        if d != 0 or b < a:
+            continue
+        content = [v.line(ln) for ln in range(a, b + 1)]
+        if any(not c.strip() for c in content):
+            continue
+        if all(c.lstrip(" ").startswith("$") for c in content):
+            if all(re.match(r"^ *\$ [a-z]", c) for c in content):
+                must.add(frozenset(range(a, b + 1)))
+        elif not any(c.lstrip(" ").startswith("$") for c in content):
+            must_not |= set(range(a, b + 1))
+    must_not |= all_lines(v) - v.code_lines
+    return must, must_not
+
+
+def md044(v, cfg):
+    """a standalone occurrence of a configured proper name with the wrong capitalisation"""
+    names = [x.strip() for x in cfg.get("names", "").split(",") if x.strip()]
+    if not names:
+        return set(), all_lines(v)
+    must, must_not = set(), set()
+    code_blocks = cfg.get("code_blocks", True)
+    para_lines = {ln for ln, d, ch in _single_line_paras(v, top_only=True) if ch and all(c.type == "text" for c in ch)}
+    for ln in sorted(all_lines(v)):
+        line = v.line(ln)
+        present = False
+        wrong = False
+        for nm in names:
+            for m in re.finditer(re.escape(nm), line, re.I):
+                present = True
+                before = line[m.start() - 1] if m.start() else " "
+                after = line[m.end()] if m.end() < len(line) else " "
+                if m.group(0) != nm and before in " " and after in " .,":
+                    wrong = True
+        if not present:
+            must_not.add(ln)
+        elif wrong and (ln in para_lines or (code_blocks and ln in v.code_content_lines and not any(a == ln for a, *_ in v.fences))):
+            must.add(ln)
+        elif ln in v.code_content_lines and not code_blocks:
+            must_not.add(ln)
+    return must, must_not
+
+
+def md043(v, cfg):
+    """the document's headings do not match the required_headings pattern (the reporting line is not documented:
+    any line of the document satisfies a MUST)"""
+    req = [x.strip() for x in cfg.get("headings", "").split(",") if x.strip()]
+    if not req:
+        return set(), all_lines(v)
+    actual = []
+    for lv, a, b, mk, tx, d, _ in v.headings:
+        if not _PLAIN.fullmatch(tx) or tx != tx.strip() or d != 0:
+            return set(), set()
+        if mk.startswith("#") and v.line(a).rstrip().endswith("#"):
+            return set(), set()
+        actual.append("#" * lv + " " + tx)
+
+    def match(i, j):
+        if i == len(req):
+            return j == len(actual)
+        if req[i] == "*":
+            return any(match(i + 1, k) for k in range(j, len(actual) + 1))
+        return j < len(actual) and actual[j] == req[i] and match(i + 1, j + 1)
+
+    if match(0, 0):
+        return set(), all_lines(v)
+    return {frozenset(range(1, v.n + 2))}, set()
+
+
 def collections_counter(it):
     import collections
 
@@ -708,4 +1102,21 @@ REFS = {
     "md046": (md046, [{}, {"style": "fenced"}, {"style": "indented"}]),
     "md047": (md047, [{}]),
     "md048": (md048, [{}, {"style": "backtick"}, {"style": "tilde"}]),
+    # second batch
+    "md003": (md003, [{}, {"style": "atx"}, {"style": "atx_closed"}, {"style": "setext"}, {"style": "setext_with_atx"}, {"style": "setext_with_atx_closed"}]),
+    "md012": (md012, [{}, {"maximum": 2}]),
+    "md014": (md014, [{}]),
+    "md020": (md020, [{}]),
+    "md021": (md021, [{}]),
+    "md027": (md027, [{}]),
+    "md028": (md028, [{}]),
+    "md033": (md033, [{}, {"allowed_elements": "b,div"}]),
+    "md034": (md034, [{}]),
+    "md036": (md036, [{}, {"punctuation": ".x"}]),
+    "md037": (md037, [{}]),
+    "md038": (md038, [{}]),
+    "md039": (md039, [{}]),
+    # (the documentation's table calls the value `required_headings`; `plugins info md043` and the code call it `headings`)
+    "md043": (md043, [{"headings": "# a,## b"}, {"headings": "# a,*"}, {"headings": "*,## b"}]),
+    "md044": (md044, [{"names": "ParaGraph,ThIs"}, {"names": "ParaGraph,ThIs", "code_blocks": False}]),
 }
